@@ -24,7 +24,7 @@ from typing_extensions import Self, TypeAlias
 
 from .errors import ConvertError, UnsupportedAnnotation
 from .addons import numpy as numpy
-from .util import key_cache
+from .util import key_cache, UNION_ORIGINS
 
 if t.TYPE_CHECKING:
     from .converters import Converter
@@ -223,7 +223,7 @@ def make_converter(ty: IntoConverter, handlers: ConverterHandlers = ConverterHan
         return _annotated_converter(args[0], args[1:], handlers=handlers)
 
     # union converter
-    if base is t.Union:
+    if base in UNION_ORIGINS:
         return UnionConverter(args, handlers=handlers)
     # literal converter
     if base is t.Literal:
